@@ -8,7 +8,7 @@ AUDIT = "Eliot/Audit/C03.lean"
 # theorems about the statements of Action.finish *as the source has them now* (extractor E14, lean/Eliot/Generated/Finish.lean)
 FIN_THEOREMS = ["Sys.C03Fin.guard_shape", "Sys.C03Fin.finishRec_finished_noop", "Sys.C03Fin.finishRec_success_is_translated",
                 "Sys.C03Fin.finishRec_failure_is_translated", "Sys.C03Fin.startRec_is_translated", "Sys.C03Fin.buildLog_is_translated",
-                "Sys.C03Fin.start_log_shape"]
+                "Sys.C03Fin.start_log_shape", "Sys.C03Fin.placement_shapes"]
 SKELETON_TARGETS = {"Sys.C03Fin.translated_finish (E14: the statements of Action.finish / _start / log in source order; World.finishRec, startRec, buildLog are "
                     "their interpretation)": ("Eliot.Properties.C03Fin", "Eliot/Audit/C03Fin.lean", FIN_THEOREMS)}
 THEOREMS = ["Sys.C03.finish_idempotent", "Sys.C03.finished_stays_finished", "Sys.C03.no_second_end", "Sys.C03.finish_program_finish",
